@@ -224,7 +224,7 @@ func (s *ServerSideCompositeSyncer) Sync(ctx context.Context, cm *claim.Unstruct
 	// Propagate composition revision ref from the claim if the update policy is
 	// manual. When the update policy is manual the claim controller is
 	// authoritative for this field. See below for the automatic case.
-	if xr.GetCompositionUpdatePolicy() != nil && *xr.GetCompositionUpdatePolicy() == xpv1.UpdateManual {
+	if cm.GetCompositionUpdatePolicy() != nil && *cm.GetCompositionUpdatePolicy() == xpv1.UpdateManual {
 		delete(wellKnownClaimFields, xcrd.CompositionRevisionRef)
 	}
 
@@ -276,7 +276,7 @@ func (s *ServerSideCompositeSyncer) Sync(ctx context.Context, cm *claim.Unstruct
 	// automatic. When the update policy is automatic the XR controller is
 	// authoritative for this field. It will update the XR's ref as new
 	// revisions become available, and we want to propgate the ref XR -> claim.
-	if p := xr.GetCompositionUpdatePolicy(); p != nil && *p == xpv1.UpdateAutomatic && xr.GetCompositionRevisionReference() != nil {
+	if p := cm.GetCompositionUpdatePolicy(); p != nil && *p == xpv1.UpdateAutomatic && xr.GetCompositionRevisionReference() != nil {
 		cm.SetCompositionRevisionReference(xr.GetCompositionRevisionReference())
 	}
 
